@@ -43,7 +43,7 @@ def uniqueAdds (p : Program) (t : Trace) : List (DName × Content) :=
       | _ => []) ++
     (match st.term with
       | .assertFail _ ds => ds.map (fun (n, c) => (n, evalAt fin c))
-      | .fixtureFail ds _ _ => ds.map (fun (n, c) => (n, evalAt k c))
+      | .fixtureFail ds _ _ _ => ds.map (fun (n, c) => (n, evalAt k c))
       | _ => [])
 
 def isRenaming (n m : DName) : Bool :=
